@@ -115,7 +115,8 @@ def lin(t, ctx=None):
     if op == "shl" and t.args[1].op == "k":
         k = t.args[1].args[0]
         lo, hi = tm.urange(t.args[0])
-        if (hi << k) <= tm.mask(t.bits):
+        if (hi << k) <= tm.mask(t.bits) or ("mul", t.args[0], tm.K(1 << k, t.bits)) in ctx.nowrap:
+            # (a checked multiplication by 2^k is printed as a shift)
             return lin(t.args[0], ctx).scale(1 << k)
     if op == "ite" and t.bits > 1:
         cv = ctx.facts.get(t.args[0])
